@@ -22,8 +22,8 @@ Theorem C07_removed_versioning_writes_nothing : forall g s objs ents assoc,
 Proof. exact versioning_off_writes_nothing. Qed.
 
 Example C07_example :
-  let g  := mkcfg true  false false false false [mkcls true true 0 [mkcol true false; mkcol false false] []] in
-  let g' := mkcfg false false false false false [mkcls true true 0 [mkcol true false; mkcol false false] []] in
+  let g  := mkcfg true  false false false false [mkcls true true 0 [mkcol true false true; mkcol false false true] []] in
+  let g' := mkcfg false false false false false [mkcls true true 0 [mkcol true false true; mkcol false false true] []] in
   let evs := [Flush [mkobj 0 [true;true] [] true false]
                     [mkev 0 0 [Some 1; Some 5] [true;true] [] [0%nat;1%nat] false true [false;false]] []; Commit] in
   same_classes g g' /\ d_live (s_db (run g evs)) = [mkl 0 [1] [Some 1; Some 5]] /\
